@@ -92,47 +92,9 @@ Definition dec (n : N) : bytes := dec_fuel 40 n [].
 Definition name_suffix_can_increment (n : N) : bool := n + name_suffix_step <=? 4294967295.
 Definition host_suffix_can_increment (n : N) : bool := n + host_suffix_step <=? 4294967295.
 
-(* fn name_change(original: &str) -> String *)
-Definition name_change (orig : bytes) : bytes :=
-  let (first, rest) := split_first orig in
-  let dflt := first ++ [C_SP; C_LP; 50; C_RP] in
-  let newn :=
-    match rsplit2 C_SP C_LP first with
-    | Some (base, q) =>
-      match find1 C_RP q with
-      | Some (num, []) =>
-        match parse_u32 num with
-        | Some n => if name_suffix_can_increment n
-                    then base ++ [C_SP; C_LP] ++ dec (n + name_suffix_step) ++ [C_RP]
-                    else dflt
-        | None => dflt
-        end
-      | _ => dflt
-      end
-    | None => dflt
-    end in
-  newn ++ rest.
-
-(* fn hostname_change(original: &str) -> String *)
-Definition hostname_change (orig : bytes) : bytes :=
-  let (first, rest) := split_first orig in
-  let dflt := first ++ [C_HY; 50] in
-  let newn :=
-    match rsplit1 C_HY first with
-    | Some (base, num) =>
-      match parse_u32 num with
-      | Some n => if host_suffix_can_increment n
-                  then base ++ [C_HY] ++ dec (n + host_suffix_step)
-                  else dflt
-      | None => dflt
-      end
-    | None => dflt
-    end in
-  newn ++ rest.
-
-(* ---- what the property asks of a rename --------------------------------------------------
-   The first LABEL of a presentation-format name ends at the first dot that is not escaped
-   by a backslash ("\." is a literal dot inside a label, "\\" a literal backslash). *)
+(* The first LABEL of a presentation-format name ends at the first dot that is not escaped by a
+   backslash ("\." is a literal dot inside a label, "\\" a literal backslash).
+   fn split_first_label(name) -> (first label as written, rest starting with that dot) *)
 Fixpoint split_first_label (s : bytes) : bytes * bytes :=
   match s with
   | [] => ([], [])
@@ -159,6 +121,76 @@ Fixpoint unescaped_len (s : bytes) : N :=
     else 1 + unescaped_len t
   end.
 
+
+Definition is_cont (b : N) : bool := (128 <=? b) && (b <=? 191).   (* UTF-8 continuation byte *)
+
+(* while !base.is_char_boundary(end) { end -= 1 } *)
+Fixpoint back_boundary (fuel : nat) (base : bytes) (e : nat) : nat :=
+  match fuel with
+  | O => e
+  | S f =>
+    if Nat.eqb e (length base) then e
+    else match e with
+         | O => O
+         | S e' => match nth_error base e with
+                   | Some c => if is_cont c then back_boundary f base e' else e
+                   | None => e
+                   end
+         end
+  end.
+
+Fixpoint lead_bsl (l : bytes) : nat :=
+  match l with c :: t => if c =? C_BSL then S (lead_bsl t) else O | [] => O end.
+
+(* fn label_with_suffix(base, suffix): base shortened (on a character boundary, not inside an
+   escape sequence) so that base + suffix fits into 63 bytes *)
+Definition label_with_suffix (base suffix : bytes) : bytes :=
+  let e0 := Nat.min (length base) (63 - length suffix) in
+  let e := back_boundary e0 base e0 in
+  let kept := firstn e base in
+  let kept' := if Nat.ltb e (length base) && Nat.odd (lead_bsl (rev kept)) then removelast kept else kept in
+  kept' ++ suffix.
+
+(* fn name_change(original: &str) -> String *)
+Definition name_change (orig : bytes) : bytes :=
+  let (first, rest) := split_first_label orig in
+  let dflt := label_with_suffix first [C_SP; C_LP; 50; C_RP] in
+  let newn :=
+    match rsplit2 C_SP C_LP first with
+    | Some (base, q) =>
+      match find1 C_RP q with
+      | Some (num, []) =>
+        match parse_u32 num with
+        | Some n => if name_suffix_can_increment n
+                    then label_with_suffix base ([C_SP; C_LP] ++ dec (n + name_suffix_step) ++ [C_RP])
+                    else dflt
+        | None => dflt
+        end
+      | _ => dflt
+      end
+    | None => dflt
+    end in
+  newn ++ rest.
+
+(* fn hostname_change(original: &str) -> String *)
+Definition hostname_change (orig : bytes) : bytes :=
+  let (first, rest) := split_first_label orig in
+  let dflt := label_with_suffix first [C_HY; 50] in
+  let newn :=
+    match rsplit1 C_HY first with
+    | Some (base, num) =>
+      match parse_u32 num with
+      | Some n => if host_suffix_can_increment n
+                  then label_with_suffix base ([C_HY] ++ dec (n + host_suffix_step))
+                  else dflt
+      | None => dflt
+      end
+    | None => dflt
+    end in
+  newn ++ rest.
+
+(* ---- what the property asks of a rename --------------------------------------------------
+   (split_first_label and unescaped_len are defined above.) *)
 (* A rename is well-formed for `orig` when only the first label changed (everything from the
    first unescaped dot on is kept) and the new first label still fits a DNS label. *)
 Definition rename_keeps_rest (orig new : bytes) : bool :=
